@@ -15,9 +15,22 @@ import (
 
 // ===== family I: TABLE — constants and tables ==========================================================
 
-// escape table as written in the source: pairs of (pattern, replacement).
-func (p *Prog) escapeTable() ([][2]string, token.Pos, bool) {
+// escape table as written in the source: (pattern, replacement) pairs, and the table's form:
+//   "pairs"   [][2][]byte / [][2]string literal applied sequentially (order matters),
+//   "bychar"  array or map literal keyed by the character (single pass, order irrelevant),
+//   "replacer" strings.NewReplacer(old1, new1, ...) (single pass).
+func (p *Prog) escapeTable() ([][2]string, token.Pos, string) {
 	pk := p.Pkgs["mxj"]
+	constStr := func(e ast.Expr) (string, bool) {
+		if call, ok := e.(*ast.CallExpr); ok && len(call.Args) == 1 {
+			e = call.Args[0] // []byte("...") conversion
+		}
+		tv := pk.TypesInfo.Types[e]
+		if tv.Value != nil && tv.Value.Kind() == constant.String {
+			return constant.StringVal(tv.Value), true
+		}
+		return "", false
+	}
 	for _, f := range pk.Syntax {
 		for _, d := range f.Decls {
 			gd, ok := d.(*ast.GenDecl)
@@ -30,48 +43,81 @@ func (p *Prog) escapeTable() ([][2]string, token.Pos, bool) {
 					if nm.Name != "escapechars" || i >= len(vs.Values) {
 						continue
 					}
+					// strings.NewReplacer(...)
+					if call, ok := vs.Values[i].(*ast.CallExpr); ok {
+						if sel, ok := call.Fun.(*ast.SelectorExpr); ok && sel.Sel.Name == "NewReplacer" && len(call.Args)%2 == 0 {
+							var out [][2]string
+							for j := 0; j+1 < len(call.Args); j += 2 {
+								a, ok1 := constStr(call.Args[j])
+								b, ok2 := constStr(call.Args[j+1])
+								if !ok1 || !ok2 {
+									return nil, nm.Pos(), ""
+								}
+								out = append(out, [2]string{a, b})
+							}
+							return out, nm.Pos(), "replacer"
+						}
+						return nil, nm.Pos(), ""
+					}
 					cl, ok := vs.Values[i].(*ast.CompositeLit)
 					if !ok {
-						return nil, nm.Pos(), false
+						return nil, nm.Pos(), ""
 					}
 					var out [][2]string
+					kind := ""
 					for _, el := range cl.Elts {
-						pair, ok := el.(*ast.CompositeLit)
-						if !ok || len(pair.Elts) != 2 {
-							return nil, nm.Pos(), false
-						}
-						var ss [2]string
-						for j, e := range pair.Elts {
-							tv, ok := pk.TypesInfo.Types[e]
-							_ = tv
-							// []byte(`&`) conversion of a constant string
-							call, isCall := e.(*ast.CallExpr)
-							if !ok || !isCall || len(call.Args) != 1 {
-								return nil, nm.Pos(), false
+						switch e := el.(type) {
+						case *ast.CompositeLit:
+							if len(e.Elts) != 2 {
+								return nil, nm.Pos(), ""
 							}
-							atv := pk.TypesInfo.Types[call.Args[0]]
-							if atv.Value == nil || atv.Value.Kind() != constant.String {
-								return nil, nm.Pos(), false
+							a, ok1 := constStr(e.Elts[0])
+							b, ok2 := constStr(e.Elts[1])
+							if !ok1 || !ok2 {
+								return nil, nm.Pos(), ""
 							}
-							ss[j] = constant.StringVal(atv.Value)
+							out = append(out, [2]string{a, b})
+							kind = "pairs"
+						case *ast.KeyValueExpr:
+							ktv := pk.TypesInfo.Types[e.Key]
+							if ktv.Value == nil {
+								return nil, nm.Pos(), ""
+							}
+							var key string
+							switch ktv.Value.Kind() {
+							case constant.Int:
+								k, _ := constant.Int64Val(ktv.Value)
+								key = string(rune(k))
+							case constant.String:
+								key = constant.StringVal(ktv.Value)
+							default:
+								return nil, nm.Pos(), ""
+							}
+							v, ok := constStr(e.Value)
+							if !ok {
+								return nil, nm.Pos(), ""
+							}
+							out = append(out, [2]string{key, v})
+							kind = "bychar"
+						default:
+							return nil, nm.Pos(), ""
 						}
-						out = append(out, ss)
 					}
-					return out, nm.Pos(), true
+					return out, nm.Pos(), kind
 				}
 			}
 		}
 	}
-	return nil, token.NoPos, false
+	return nil, token.NoPos, ""
 }
 
 var xmlEntities = map[string]string{"&": "&amp;", "<": "&lt;", ">": "&gt;", `"`: "&quot;", "'": "&apos;"}
 
 func ruleTableEscape(p *Prog, r *Report) {
 	const rule = "TABLE.escape"
-	tab, pos, ok := p.escapeTable()
-	if !ok {
-		r.Unknown(rule, "mxj.escapechars", "table literal", p.Pos(pos), "the escape table is not a literal of constant pairs")
+	tab, pos, kind := p.escapeTable()
+	if kind == "" {
+		r.Unknown(rule, "mxj.escapechars", "table literal", p.Pos(pos), "the escape table is not a literal of constant (pattern, replacement) entries in one of the recognised forms (pair list, table keyed by character, strings.NewReplacer)")
 		return
 	}
 	seen := map[string]bool{}
@@ -87,7 +133,7 @@ func ruleTableEscape(p *Prog, r *Report) {
 			r.OK(rule, "mxj.escapechars", c, p.Pos(pos), "maps to its predefined XML entity "+want)
 		}
 		seen[pr[0]] = true
-		for j := i + 1; j < len(tab); j++ {
+		for j := i + 1; j < len(tab) && kind == "pairs"; j++ {
 			if strings.Contains(pr[1], tab[j][0]) {
 				r.Bad(rule, "mxj.escapechars", fmt.Sprintf("order %q before %q", pr[0], tab[j][0]), p.Pos(pos),
 					fmt.Sprintf("replacement %q of entry %d contains the later pattern %q: it would be escaped a second time", pr[1], i, tab[j][0]))
@@ -99,15 +145,34 @@ func ruleTableEscape(p *Prog, r *Report) {
 			r.Bad(rule, "mxj.escapechars", fmt.Sprintf("entry %q", ch), p.Pos(pos), "special character missing from the table")
 		}
 	}
-	r.OK(rule, "mxj.escapechars", "no double escaping by order", p.Pos(pos), "no replacement contains a pattern that is applied after it ('&' first)")
-	// the loop applies the pairs in table order to an accumulator
 	fn := p.Fn("mxj.escapeChars")
 	g := p.Globals["mxj.escapechars"]
 	if fn == nil || g == nil {
 		r.Anchor(rule, "mxj.escapeChars")
 		return
 	}
+	if kind != "pairs" {
+		r.OK(rule, "mxj.escapechars", "no double escaping by order", p.Pos(pos), "single-pass table ("+kind+"): each input character is replaced once, order is irrelevant")
+		// the function must consult the table
+		uses := false
+		eachInstr(fn, func(b *ssa.BasicBlock, in ssa.Instruction) {
+			for _, op := range in.Operands(nil) {
+				if op != nil && *op == ssa.Value(g) {
+					uses = true
+				}
+			}
+		})
+		if uses {
+			r.OK(rule, "mxj.escapeChars", "applies the table in order", p.Pos(fn.Pos()), "the escaping function reads the table")
+		} else {
+			r.Bad(rule, "mxj.escapeChars", "applies the table in order", p.Pos(fn.Pos()), "the escaping function does not use the table")
+		}
+	} else {
+		r.OK(rule, "mxj.escapechars", "no double escaping by order", p.Pos(pos), "no replacement contains a pattern that is applied after it ('&' first)")
+	}
+	// the loop applies the pairs in table order to an accumulator
 	var rangeElem *ssa.IndexAddr
+	if kind == "pairs" {
 	eachInstr(fn, func(b *ssa.BasicBlock, in ssa.Instruction) {
 		if ia, ok := in.(*ssa.IndexAddr); ok && globalOf(ia.X) == g {
 			rangeElem = ia
@@ -160,6 +225,7 @@ func ruleTableEscape(p *Prog, r *Report) {
 		} else {
 			r.Bad(rule, "mxj.escapeChars", "applies the table in order", p.Pos(fn.Pos()), fmt.Sprintf("ascending range=%v, replace(acc, pair[0], pair[1]) feeding the next iteration=%v", okIdx, okRepl))
 		}
+	}
 	}
 	// early returns of the unmodified input must be justified for every special character
 	var specials []string
